@@ -12,7 +12,7 @@ ROOT = os.path.dirname(os.path.dirname(os.path.abspath(__file__)))
 ENV = dict(os.environ, GOFLAGS="-mod=mod", GOPROXY="off")
 ENV.pop("GOSUMDB", None); ENV.pop("GOTOOLCHAIN", None)
 FUNCS = ["p.Arith", "p.Conv", "p.Shifts", "p.SignedShift", "p.Div", "p.Neg", "p.Str", "p.Diamond", "p.(*Counter).Add", "p.(*Counter).Twice",
-         "p.(*Box).Touch", "p.(*Box).Look", "p.ByValue", "p.Local", "p.BigOps", "p.MaybeNil", "p.Panics", "p.Words"]
+         "p.(*Box).Touch", "p.(*Box).Look", "p.ByValue", "p.Local", "p.BigOps", "p.MaybeNil", "p.Panics", "p.Words", "p.InPlace"]
 work = os.path.join(ROOT, ".work", "translator-selftest")
 os.makedirs(work, exist_ok=True)
 ext = os.path.join(ROOT, "go", "extract")
